@@ -153,5 +153,20 @@ pub open spec fn proving_enrol(m: SendRec, epoch: int) -> bool {
             }
         }
 //@ end
+// ======================= on_deferred_cron_event: the miner's cron callback as the power actor invokes it =======================
+//@ item actors/miner/src/types.rs DeferredCronEventParams
+//@ include prelude/miner_cron_payload.rs
+//@ fn actors/miner/src/lib.rs Actor::on_deferred_cron_event free ret=res
+    requires
+        !old(rt).in_tx@, old(rt).tx_log@.len() == 0, old(rt).sends@.len() == 0,
+        st_wf(rt_state::<State>(old(rt).state_id@)), pol_ok(rt_policy()), small(rt_state::<State>(old(rt).state_id@).proving_period_start as int),
+        0 <= old(rt).epoch < 0x0800_0000_0000_0000,
+        deadlines_of(rt_state::<State>(old(rt).state_id@)).is_some() ==> deadlines_of(rt_state::<State>(old(rt).state_id@))->Some_0.due@.len() == rt_policy().wpost_period_deadlines,
+    ensures
+        // only the power actor's cron may call it
+        /*C11*/ /*C05*/ res.is_ok() ==> old(rt).msg.caller == STORAGE_POWER_ACTOR_ADDR,
+        // a successful callback leaves the miner solvent: the balance covers pre-commit deposits + vesting funds + initial pledge
+        /*C01*/ /*C05*/ res.is_ok() ==> st_solvent(rt_state::<State>(final(rt).state_id@), final(rt).balance@),
+//@ end
 } // verus!
 fn main() {}
